@@ -38,10 +38,17 @@ func (h timerHeap) Less(i, j int) bool {
 	}
 	return h[i].seq < h[j].seq
 }
-func (h timerHeap) Swap(i, j int)  { h[i], h[j] = h[j], h[i]; h[i].index = i; h[j].index = j }
-func (h *timerHeap) Push(x any)    { e := x.(*tentry); e.index = len(*h); *h = append(*h, e) }
-func (h *timerHeap) Pop() any      { o := *h; n := len(o); e := o[n-1]; *h = o[:n-1]; e.index = -1; return e }
-func (h timerHeap) peek() *tentry  { return h[0] }
+func (h timerHeap) Swap(i, j int) { h[i], h[j] = h[j], h[i]; h[i].index = i; h[j].index = j }
+func (h *timerHeap) Push(x any)   { e := x.(*tentry); e.index = len(*h); *h = append(*h, e) }
+func (h *timerHeap) Pop() any {
+	o := *h
+	n := len(o)
+	e := o[n-1]
+	*h = o[:n-1]
+	e.index = -1
+	return e
+}
+func (h timerHeap) peek() *tentry { return h[0] }
 
 //go:norace
 func (r *run) now(t *Thread) int64 {
